@@ -601,6 +601,9 @@ func (c *VC) readFact(st *State, v *Term, t types.Type) {
 		w := c.wfAt(st, v, t)
 		if !isTrue(w) {
 			key := "rf:" + v.String()
+			if c.noName || c.quantDepth > 0 {
+				return // facts created under a binder are discarded by the caller
+			}
 			if len(key) < 400 {
 				if c.specAxioms[key] {
 					return
